@@ -16,12 +16,19 @@ from vf import kfacrun as K
 from vf.digest import kfac_state as _kfac_state
 
 F64 = torch.float64
-LAYERS = {'layers.0': ('0', 'column'), 'layers.2': ('2', 'row')}
+LAYERS = {'layers.0': ('0', 'column'), 'layers.2': ('2', 'row'),
+          'layers.4': ('4', 'column')}
+
+
+def layers_of(cfg):
+    n = 3 if cfg.get('gmodel', 'gpt2l') == 'gpt3l' else 2
+    return dict(list(LAYERS.items())[:n])
 
 
 def ref_cfg(cfg):
     """The unsharded single-axis (data-parallel only) equivalent."""
-    return {'model': 'gpt2l' if cfg.get('bias', True) else 'gpt2l-nb',
+    gm = cfg.get('gmodel', 'gpt2l')
+    return {'model': gm if cfg.get('bias', True) else gm + '-nb',
             'dtype': 'f32', 'batch': cfg.get('batch', 2),
             'world': cfg['dp'], 'seed': cfg.get('seed', 0),
             'kfac': {**{k: v for k, v in cfg['kfac'].items()
@@ -58,7 +65,8 @@ class GptRun:
         world.set_digest(lambda: _kfac_state(self.pre, (), len(self.rec)))
 
     def _mk_model(self):
-        shard = gptenv.shard_model('gpt2l', self.cfg.get('bias', True),
+        shard = gptenv.shard_model(self.cfg.get('gmodel', 'gpt2l'),
+                                   self.cfg.get('bias', True),
                                    self.mp, self.coord.model,
                                    self.groups['model'],
                                    seed=self.cfg.get('seed', 0))
@@ -148,11 +156,23 @@ class GptRun:
         cfg = self.cfg
         d = self.coord.data
         self.model.zero_grad()
-        x = R.batch_for('gpt2l', cfg.get('batch', 2), torch.float32, d,
+        gm = cfg.get('gmodel', 'gpt2l')
+        x = R.batch_for(gm, cfg.get('batch', 2), torch.float32, d,
                         self.it, 0, cfg.get('seed', 0))
         out = self.model(x)
-        loss = R.loss_fn(out, d, self.it, 0, cfg.get('seed', 0)) \
-            * cfg.get('loss_mult', 1.0)
+        if gm == 'gpt3l':
+            # output is sharded on the last dimension: every rank takes its
+            # slice of the full target; the shards' losses add up to the
+            # mean-reduced loss of the unsharded model
+            full = gptenv.SIZES[gm][3]
+            y = R.lattice((out.shape[0], full), 2, d, self.it, 0,
+                          seed=cfg.get('seed', 0)).to(out.dtype)
+            s = full // self.mp
+            y = y[:, self.coord.model * s:(self.coord.model + 1) * s]
+            loss = ((out - y) ** 2).sum() / (out.shape[0] * full)
+        else:
+            loss = R.loss_fn(out, d, self.it, 0, cfg.get('seed', 0))
+        loss = loss * cfg.get('loss_mult', 1.0)
         loss.backward()
         params = [p for p in self.model.parameters() if p.grad is not None]
         if self.dp > 1:
@@ -195,7 +215,7 @@ def expected_shards(cfg, rv, coord):
     """name -> (weight shard, bias shard) of the reference gradient."""
     out = {}
     bias = cfg.get('bias', True)
-    for gname, (rname, kind) in LAYERS.items():
+    for gname, (rname, kind) in layers_of(cfg).items():
         out[gname] = gptenv.shard_of(rv['P'][rname], rname, kind, cfg['mp'],
                                      coord.model, bias)
     return out
